@@ -1,6 +1,6 @@
 (* C18 — ORM export is reproducible.
    Pinned statements only: each theorem is closed by [exact] of a lemma proved in Proofs/. *)
-From VV.EXP Require Import Imports Names SiteTables ImportsP NamesP.
+From VV.EXP Require Import Imports Names SiteTables SeaConfig ImportsP NamesP SeaConfigP.
 From Coq Require Import Permutation Sorted.
 
 (* both import blocks are functions of the table alone: every collected HashSet is sorted before use (the datetime
@@ -55,6 +55,27 @@ Check C18_seaorm_oracle_free :
   /\ (forall pi pi' s, admissible pi -> admissible pi' -> hs_len pi s = hs_len pi' s)
   /\ (forall V (pi pi' : list (string * V) -> list (string * V)) m k,
         admissible pi -> admissible pi' -> NoDup (map fst m) -> hm_get pi m k = hm_get pi' m k).
+
+(* SeaORM export configuration (extraModelDerives / extraEnumDerives ...): the configured derives follow the built-in
+   ones in CONFIGURATION order, duplicates kept — K-exp sub-check 6 compares the derive / serde / table_name / vespera
+   lines of every table rendered under a drawn configuration with [config_lines], so a re-ordering (e.g. through a
+   HashSet) is a correspondence mismatch as well as an oracle failure *)
+Theorem C18_derive_line_order : forall cfg,
+  model_derives cfg = builtin_model_derives ++ sc_extra_model_derives cfg
+  /\ enum_derives cfg = builtin_enum_derives ++ sc_extra_enum_derives cfg
+  /\ (forall i d, nth_error (sc_extra_model_derives cfg) i = Some d ->
+        nth_error (model_derives cfg) (List.length builtin_model_derives + i) = Some d)
+  /\ (forall i d, nth_error (sc_extra_enum_derives cfg) i = Some d ->
+        nth_error (enum_derives cfg) (List.length builtin_enum_derives + i) = Some d).
+Proof. exact derive_line_order. Qed.
+Print Assumptions C18_derive_line_order.
+Check C18_derive_line_order : forall cfg,
+  model_derives cfg = builtin_model_derives ++ sc_extra_model_derives cfg
+  /\ enum_derives cfg = builtin_enum_derives ++ sc_extra_enum_derives cfg
+  /\ (forall i d, nth_error (sc_extra_model_derives cfg) i = Some d ->
+        nth_error (model_derives cfg) (List.length builtin_model_derives + i) = Some d)
+  /\ (forall i d, nth_error (sc_extra_enum_derives cfg) i = Some d ->
+        nth_error (enum_derives cfg) (List.length builtin_enum_derives + i) = Some d).
 
 (* the order of the schema slice (directory enumeration order in `vespertide export`) reaches the output *)
 Theorem C18_slice_order_refuted : exists s s' t, Permutation s s' /\ members s t <> members s' t.
